@@ -53,7 +53,7 @@ PROPS = {
             "level_note": FMT_NOTE},
     "C04": {"modules": ["Carapace.Props.C04"], "ops": [("value", {"quick": 6000, "thorough": 300000})], "rule": FMT_RULE, "assumptions": FMT_ASSUME,
             "claimed": True, "engine": "fmt",
-            "level_text": ("`C04_fish` and `C04_bash_framing`: decoding the emitted text with the consumer's own parsing yields exactly one record per candidate with that candidate's own fields, for any text in any field (framing lemmas `splitOnChar_joinChar`, `cutChar_append` + the sets of characters each sanitizer strips, decided on the tables regenerated from /repo); no-line-break theorems for bash, elvish, nushell; record counts for the JSON formats; decided counterexamples for the listed findings (bash-ble, cmd-clink). All 13 formats are additionally under exact output correspondence and the decode-and-compare oracle on the real output."),
+            "level_text": ("`C04_fish` and `C04_bash_framing`: decoding the emitted text with the consumer's own parsing yields exactly one record per candidate with that candidate's own fields, for any text in any field (framing lemmas `splitOnChar_joinChar`, `cutChar_append` + the sets of characters each sanitizer strips, decided on the tables regenerated from /repo); no-line-break theorems for bash, elvish, nushell; zsh's three framing levels (`C04_zsh_outer_framing`, `C04_zsh_block_framing`, `C04_zsh_lines` with `C04_zsh_values_no_linebreak`; `C04_zsh_framing_counterexample` for the listed control-character finding); record counts for the JSON formats; decided counterexamples for the listed findings (bash-ble, cmd-clink). All 13 formats are additionally under exact output correspondence and the decode-and-compare oracle on the real output."),
             "level_note": FMT_NOTE},
     "C05": {"modules": ["Carapace.Props.C05"], "ops": [("value", {"quick": 6000, "thorough": 300000})], "rule": FMT_RULE, "assumptions": FMT_ASSUME,
             "claimed": True, "engine": "fmt",
@@ -227,11 +227,11 @@ ENTRY_NOTE = ("Trusted: Lean kernel + propext/Classical.choice/Quot.sound (`C18_
               "Modelled and proved total: bash.CompLine, RawValue.TrimmedDescription, namedDirectories.match / Replace, expandHome, Context.Abs. Everything else on the entry path (traverse, the lexer, cobra, the formatters' index arithmetic) is NOT modelled: for it the property is searched on the real code by mass generation, and the regenerated site inventory pins the source the search was run against - a theorem about the inventory, not about those sites' safety. Memory exhaustion, signals and OS errors are outside.")
 
 PROPS.update({
-    "C18": {"modules": ["Carapace.Props.C18"], "ops": [("entry", {"quick": 4000, "thorough": 200000}), ("compline", {"quick": 3000, "thorough": 100000}), ("trimdesc", {"quick": 3000, "thorough": 100000}), ("abs", {"quick": 3000, "thorough": 100000})],
+    "C18": {"modules": ["Carapace.Props.C18", "Carapace.Props.C18Traverse"], "ops": [("entry", {"quick": 4000, "thorough": 200000}), ("compline", {"quick": 3000, "thorough": 100000}), ("trimdesc", {"quick": 3000, "thorough": 100000}), ("abs", {"quick": 3000, "thorough": 100000})],
             "rule": ENTRY_RULE, "assumptions": ["the observable is the one the property names: exit status, stderr and decodability of stdout of a child process", "a hang is no answer within 20 s (the machine may be loaded by 16 parallel children)"],
             "claimed": True, "engine": "total",
             "technique": "machine-checked proof in Lean 4 (explicit-panic models of the slice arithmetic, kernel-decided site inventory regenerated from the source) + differential correspondence; the unmodelled remainder of the entry path is searched by generated child processes (partial)",
-            "level_text": ("Partial: proof for the modelled functions, search on the real code for the rest (the runtime behaviour - panics inside unmodelled code, hangs - cannot be exhibited by the model). Proved for every input, in a model where Go's slice and index expressions are operations that can fail (`Except Panic`): `C18_compLine_total` (bash.CompLine never panics whatever COMP_LINE / COMP_POINT hold - true only since fix 3cb8b85) with `C18_compLine_prefix`, `C18_trimmed_total` / `C18_trimmed_source` (TrimmedDescription's `[:maxLength-3]` is in range for the limit read from the source, and the function equals the total one used by the formatter theorems), `C18_ndMatch_total`, `C18_ndReplace_total` (`SplitN(s, \"/\", 2)[1]` is reached only when the string contains `/`), `C18_expandHome_total`, `C18_abs_total`; a decided witness that the failure is expressible (`C18_trimmed_small_limit_panics`). "
+            "level_text": ("Partial: proof for the modelled functions, search on the real code for the rest (the runtime behaviour - panics inside unmodelled code, hangs - cannot be exhibited by the model). Proved for every input, in a model where Go's slice and index expressions are operations that can fail (`Except Panic`): `C18_compLine_total` (bash.CompLine never panics whatever COMP_LINE / COMP_POINT hold - true only since fix 3cb8b85) with `C18_compLine_prefix`, `C18_trimmed_total` / `C18_trimmed_source` (TrimmedDescription's `[:maxLength-3]` is in range for the limit read from the source, and the function equals the total one used by the formatter theorems), `C18_ndMatch_total`, `C18_ndReplace_total` (`SplitN(s, \"/\", 2)[1]` is reached only when the string contains `/`), `C18_expandHome_total`, `C18_abs_total`; a decided witness that the failure is expressible (`C18_trimmed_small_limit_panics`); over the traverse model (single command), the two slices of traverse.go whose bounds depend on the typed line: `C18_toParse_nonempty` (`toParse[:len-1]` is reached only when a flag waits for its value, and then that flag word is the last word - loop invariant `loop_pend`) and `C18_series_prefix_contains_shorthand` / `C18_series_cut_exists` (`Prefix[LastIndex(Prefix, Shorthand):]`: what lookupPosixShorthandArg returns carries the letter in its prefix). "
                            "`C18_sites_covered`: the inventory of every index / slice / panic / Must* expression of 38 files on the entry path, each with the conditions guarding it, regenerated from /repo on every run, equals the inventory the runs below were made for (kernel-decided). The models are compared exactly with the real functions (ops compline, trimdesc, abs). "
                            "Decided on the real code: thousands of child processes per run with generated argv / environment / ancestor shell / command tree; oracle: exit status 0, no goroutine dump, an answer within the limit, stdout decodable by the requested shell's consumer-side decoder, nothing but white space for unknown shells."),
             "level_note": ENTRY_NOTE},
